@@ -14,7 +14,7 @@ import (
 
 // The process-wide per-worker share record (GlobalHashrate) against Model/WorkerBook.lean:
 //
-//	init <w> | submit <w> <diff> | reset <w> | advance <s>
+//	init <w> | connect <w> | submit <w> <diff> | reset <w> | advance <s>
 //
 // after every op, for each of the three worker names: <w>=<unix second of the last share | ->,<total work | ->
 
@@ -47,6 +47,8 @@ func bookExec(tr *vh.Transcript, ops []string) {
 			var d int
 			fmt.Sscan(f[2], &d)
 			g.OnSubmit(f[1], float64(d))
+		case "connect":
+			g.OnConnect(f[1])
 		case "reset":
 			g.Reset(f[1])
 		case "advance":
@@ -65,8 +67,11 @@ func bookGen(r *vh.Rng) []string {
 		switch k := r.Intn(100); {
 		case k < 40:
 			ops = append(ops, fmt.Sprintf("submit %s %d", w, 1+r.Intn(5000)))
-		case k < 55:
+		case k < 47:
 			ops = append(ops, "init "+w)
+		case k < 55:
+			// one more connection under the same worker name (a rig reconnecting, a second rig, another seller miner of the contract)
+			ops = append(ops, "connect "+w)
 		case k < 70:
 			ops = append(ops, "reset "+w)
 		case k < 80:
